@@ -199,13 +199,20 @@ class MaxSumFactorComputation(DcopComputation):
           * cost is the sum of the costs received from all other factors
             except f for this value d for the domain.
         """
+        first_msg_from_var = var_name not in self._costs
         self._costs[var_name] = msg.costs
 
         # Wait until we received costs from all our variables before sending
-        # our own costs (if works without doing that, but results are worse)
-        if len(self._costs) == len(self.factor.dimensions):
+        # our own costs (if works without doing that, but results are worse).
+        # With start_messages == "leafs" inner variables only send once they
+        # have received something: waiting for them would block forever.
+        wait_all = self.start_messages != "leafs"
+        if not wait_all or len(self._costs) == len(self.factor.dimensions):
             for v in self.variables:
-                if v.name != var_name:
+                # The costs for the sender do not depend on its own message,
+                # except when we were waiting and this message completes the
+                # set: nothing has been sent yet, the sender needs its costs too.
+                if v.name != var_name or (wait_all and first_msg_from_var):
                     costs_v = maxsum.factor_costs_for_var(
                         self.factor, v, self._costs, self.mode
                     )
